@@ -34,19 +34,19 @@ static void check_block(RunResult &res, uint8_t *data, size_t size, const std::v
 		const uint8_t *k, *v; size_t kl, vl;
 		if (!block_iter_get(bi, &k, &kl, &v, &vl)) break;
 		if (n >= want.size() || Bytes((const char *)k, kl) != want[n].first || vl != want[n].second) {
-			res.fail("MODEL", std::string("HUGE64-iterate-") + what, "entry " + std::to_string(n) + " of a block with 64-bit restart offsets decodes as key " + short_repr(Bytes((const char *)k, kl)) + " value length " + std::to_string(vl));
+			res.fail("MODEL", std::string("HUGE64-iterate-") + what, "entry " + std::to_string(n) + " of a block of about 4 GiB decodes as key " + short_repr(Bytes((const char *)k, kl)) + " value length " + std::to_string(vl));
 			break;
 		}
 		n++;
 		if (!block_iter_next(bi)) break;
 	}
-	if (!res.viol && n != want.size()) res.fail("MODEL", std::string("HUGE64-count-") + what, std::to_string(n) + " of " + std::to_string(want.size()) + " entries decoded from a block with 64-bit restart offsets");
+	if (!res.viol && n != want.size()) res.fail("MODEL", std::string("HUGE64-count-") + what, std::to_string(n) + " of " + std::to_string(want.size()) + " entries decoded from a block of about 4 GiB");
 	// seeks through the 64-bit restart array
 	for (size_t i = 0; i < want.size() && !res.viol; i++) {
 		block_iter_seek(bi, (const uint8_t *)want[i].first.data(), want[i].first.size());
 		const uint8_t *k, *v; size_t kl, vl;
 		if (!block_iter_get(bi, &k, &kl, &v, &vl) || Bytes((const char *)k, kl) != want[i].first || vl != want[i].second)
-			res.fail("MODEL", std::string("HUGE64-seek-") + what, "seek to key " + short_repr(want[i].first) + " in a block with 64-bit restart offsets lands elsewhere");
+			res.fail("MODEL", std::string("HUGE64-seek-") + what, "seek to key " + short_repr(want[i].first) + " in a block of about 4 GiB lands elsewhere");
 	}
 	block_iter_destroy(&bi);
 	block_destroy(&b);
@@ -63,6 +63,8 @@ void huge64_check(RunResult &res, bool builder, uint64_t seed)
 		uint8_t *m = (uint8_t *)mmap(nullptr, cap, PROT_READ | PROT_WRITE, MAP_PRIVATE | MAP_ANONYMOUS | MAP_NORESERVE, -1, 0);
 		if (m == MAP_FAILED) { res.unjudged["huge64-sparse-mapping-refused"]++; return; }
 		uint64_t off = 0, r0, r2;
+		auto vlen_of = [](uint64_t v) { uint8_t t[12]; return (uint64_t)mfmt::put_varint(t, v); };
+		auto entry_size = [&](uint64_t shared, const Bytes &suffix, uint64_t vlen) { return vlen_of(shared) + vlen_of(suffix.size()) + vlen_of(vlen) + suffix.size() + vlen; };
 		auto put_entry = [&](uint64_t shared, const Bytes &suffix, uint64_t vlen) {
 			off += mfmt::put_varint(m + off, shared);
 			off += mfmt::put_varint(m + off, suffix.size());
@@ -70,8 +72,22 @@ void huge64_check(RunResult &res, bool builder, uint64_t seed)
 			memcpy(m + off, suffix.data(), suffix.size()); off += suffix.size();
 			off += vlen;	// value bytes stay untouched (zero pages)
 		};
+		// where the entry area ends decides the width of the restart array (64-bit iff it ends beyond 2^32 - 1, the
+		// writer's rule); the second large value is sized so that the end lands on a drawn side of that threshold:
+		//   0 far above | 1 at most 2^32-1 but the block as a whole is larger than that (32-bit slots) |
+		//   2 just above (64-bit slots) | 3 the whole block just below | 4 exactly 2^32-1
+		const int mode = (int)(seed % 5);
+		const uint64_t nrs = 8, M = 0xFFFFFFFFull;
+		uint64_t big2 = big;
+		if (mode != 0) {
+			uint64_t fixed = entry_size(0, "a", big) + entry_size(0, "b", 5) + entry_size(1, "a", 0);
+			for (char c = 'c'; c <= 'h'; c++) fixed += entry_size(0, Bytes(1, c), (uint64_t)(c - 'a') * 3) + entry_size(1, "x", 1);
+			uint64_t d = r.below(4 * nrs + 4);
+			uint64_t target = mode == 1 ? M - d : mode == 2 ? M + 1 + r.below(40) : mode == 3 ? M - 4 * nrs - 4 - r.below(40) : M;
+			big2 = target - fixed - (entry_size(1, "b", big) - big);	// same varint length as `big` (both in 2^28 .. 2^35)
+		}
 		r0 = off; put_entry(0, "a", big); want.push_back({ "a", big });
-		put_entry(1, "b", big); want.push_back({ "ab", big });
+		put_entry(1, "b", big2); want.push_back({ "ab", big2 });
 		r2 = off; put_entry(0, "b", 5); want.push_back({ "b", 5 });
 		put_entry(1, "a", 0); want.push_back({ "ba", 0 });
 		// several more restart points beyond 2^32 so that every slot of the 64-bit array matters
@@ -82,6 +98,17 @@ void huge64_check(RunResult &res, bool builder, uint64_t seed)
 			put_entry(0, Bytes(1, c), vl); want.push_back({ Bytes(1, c), vl });
 			put_entry(1, "x", 1); want.push_back({ Bytes(1, c) + "x", 1 });
 		}
+		if (off <= M) {
+			// entry area ends at or below 2^32 - 1: 32-bit slots, whatever the size of the block as a whole
+			for (size_t i = 0; i < rs.size(); i++) wr32(m + off + 4 * i, (uint32_t)rs[i]);
+			wr32(m + off + 4 * rs.size(), (uint32_t)rs.size());
+			size_t size32 = (size_t)(off + 4 * rs.size() + 4);
+			res.probes[size32 > M ? "huge64-entry-area-below-2^32-block-above" : "huge64-block-just-below-2^32"]++;
+			check_block(res, m, size32, want, size32 > M ? "straddling" : "below");
+			munmap(m, cap);
+			return;
+		}
+		if (mode == 2) res.probes["huge64-entry-area-just-above-2^32"]++;
 		for (size_t i = 0; i < rs.size(); i++) wr64(m + off + 8 * i, rs[i]);
 		wr32(m + off + 8 * rs.size(), (uint32_t)rs.size());
 		size_t size = (size_t)(off + 8 * rs.size() + 4);
